@@ -353,6 +353,79 @@ fn gen<'a>(guests: &'a [Guest], thorough: bool) -> impl Fn(&mut EnumCtx) + Sync 
             e.state(90_002);
             e.outcome(90_002);
         }
+        // ---- permissions survive what happens to the area afterwards: resizing (API and, for the
+        // heap, the guest's brk) must not hand back access that mem_prot took away
+        for mask in 0..8u32 {
+            for how in 0..3usize {
+                if !e.next() {
+                    continue;
+                }
+                let hname = ["grown", "shrunk", "heap grown by brk"][how];
+                e.describe("config", &format!("mask {} then {hname}", mask_name(mask)));
+                e.state(91_000 + mask as u64 * 4 + how as u64);
+                // mov [rbx],al ; syscall
+                let code = [0x88u8, 0x03, 0x0F, 0x05, 0x90, 0x90, 0x90, 0x90];
+                let mut ax = Axecutor::new(&code, CODE_AT, CODE_AT).unwrap();
+                let area = if how < 2 {
+                    ax.mem_init_area(DATA, vec![0x5A; 0x40]).unwrap();
+                    ax.mem_prot(DATA, mask).unwrap();
+                    let r = guarded(|| ax.mem_resize_section(DATA, if how == 0 { 0x80 } else { 0x20 }).map_err(|e| e.to_string()));
+                    if !matches!(r, Ok(Ok(()))) {
+                        continue; // whether the resize itself works is C10's subject
+                    }
+                    DATA
+                } else {
+                    use ax_x86::helpers::syscalls::Syscall;
+                    ax.handle_syscalls(vec![Syscall::Brk]).unwrap();
+                    ax.reg_write_64(SR::RIP, CODE_AT + 2).unwrap();
+                    ax.reg_write_64(SR::RAX, 12).unwrap();
+                    ax.reg_write_64(SR::RDI, 0).unwrap();
+                    if !matches!(crate::emu::step(&mut ax), StepOut::Ok(_)) {
+                        continue;
+                    }
+                    let brk0 = ax.reg_read_64(SR::RAX).unwrap();
+                    let base = match ax.verif_areas().iter().find(|a| a.start as u128 + a.length as u128 == brk0 as u128) {
+                        Some(a) => a.start,
+                        None => continue,
+                    };
+                    ax.mem_prot(base, mask).unwrap();
+                    ax.reg_write_64(SR::RIP, CODE_AT + 2).unwrap();
+                    ax.reg_write_64(SR::RAX, 12).unwrap();
+                    ax.reg_write_64(SR::RDI, brk0 + 0x100).unwrap();
+                    if !matches!(crate::emu::step(&mut ax), StepOut::Ok(_)) {
+                        continue;
+                    }
+                    base
+                };
+                let w = || json!({"mask": mask_name(mask), "then": hname});
+                let mut outcome = 0u64;
+                // API read / write
+                let rd = guarded(|| ax.mem_read_8(area + 8)).map(|r| r.is_ok()).unwrap_or(false);
+                if rd && mask & 1 == 0 {
+                    e.finding("perm|config|read-allowed-without-R-after-resize", || format!("an area with mask {} was {hname}; afterwards mem_read_8 succeeds", mask_name(mask)), w);
+                }
+                let before = areas_hash(&ax);
+                let wr = guarded(|| ax.mem_write_8(area + 8, 0x77)).map(|r| r.is_ok()).unwrap_or(false);
+                if wr && mask & 2 == 0 {
+                    e.finding("perm|config|write-allowed-without-W-after-resize", || format!("an area with mask {} was {hname}; afterwards mem_write_8 succeeds", mask_name(mask)), w);
+                } else if !wr && areas_hash(&ax) != before {
+                    e.finding("perm|config|denied-access-changed-memory", || format!("denied write after the area was {hname} changed memory"), w);
+                }
+                outcome |= rd as u64 | (wr as u64) << 1;
+                // guest store
+                ax.reg_write_64(SR::RIP, CODE_AT).unwrap();
+                ax.reg_write_64(SR::RBX, area + 9).unwrap();
+                ax.reg_write_64(SR::RAX, 0x33).unwrap();
+                if let StepOut::Ok(_) = crate::emu::step(&mut ax) {
+                    outcome |= 4;
+                    if mask & 2 == 0 {
+                        e.finding("perm|config|guest-store-allowed-without-W-after-resize", || format!("an area with mask {} was {hname}; afterwards a guest store succeeds", mask_name(mask)), w);
+                    }
+                }
+                e.outcome(91_000 + (mask as u64 * 4 + how as u64) * 8 + outcome);
+                e.count("transitions", 4);
+            }
+        }
     }
 }
 
